@@ -25,39 +25,52 @@ ROOTS = ["builder::build_str", "builder::build_file", "parser::parse_str", "pars
 
 
 def map_sites(P, adt_path, fields):
-    """HashMap accesses whose receiver is field f of the given context struct: [(body key, bb, term, field name)]"""
+    """HashMap accesses whose receiver is field f of the given context struct: [(body key, bb, term, field name, method)].  A helper that is
+    handed the map (`lookup(&self.equs, name)`) holds the access for every field its callers hand it."""
     out = []
     names = [f["name"] for f in P.lib.adts[adt_path]["variants"][0]["fields"]]
-    for k in sorted(P.reachable(ROOTS)):
+    WRAP = ("std::rc::Rc", "std::boxed::Box", "std::cell::RefCell", "std::cell::Ref", "std::cell::RefMut", "std::sync::Arc")
+    chasers = {}
+
+    def chaser(k):
+        if k not in chasers:
+            chasers[k] = MU.Chaser(P.body[k])
+        return chasers[k]
+
+    def fields_of(k, op, depth=0):
+        """the context fields the operand can be (a view of)"""
         b = P.body[k]
-        ch = None
+        root, proj, trail = chaser(k).root(op)
+        if root is None:
+            return set()
+        cr = P.crate_of[k]
+        cur = cr.types[b["locals"][root]["ty"]]
+        for e in proj:
+            # references and smart-pointer wrappers are transparent for "which field of which struct"
+            while cur["k"] in ("ref", "ptr") or (cur["k"] == "adt" and cur["path"] in WRAP and cur["args"]):
+                cur = cr.types[cur["to"]] if cur["k"] in ("ref", "ptr") else cr.types[cur["args"][0]]
+            if e["k"] == "field":
+                if cur["k"] == "adt" and cur["path"].replace("avra_lib::", "") == adt_path and e["i"] < len(names):
+                    return {names[e["i"]]}
+                cur = cr.types[e["ty"]]
+            elif e["k"] in ("via", "addrof", "deref", "downcast"):
+                continue
+            else:
+                break
+        got = set()
+        if 1 <= root <= b["arg_count"] and depth < 2 and "{closure" not in k:
+            for k2 in P.body:
+                for _, t2, _, tg2 in P.call_sites(k2):
+                    if k in tg2 and len(t2["args"]) >= root:
+                        got |= fields_of(k2, t2["args"][root - 1], depth + 1)
+        return got
+
+    for k in sorted(P.reachable(ROOTS)):
         for bb, t, name, targets in P.call_sites(k):
             full, rp = MU.callee_names(t)
             if not MAP_METHODS.match(rp):
                 continue
-            if ch is None:
-                ch = MU.Chaser(b)
-            root, proj, trail = ch.root(t["args"][0])
-            # find the field step that applies to the context struct
-            cr = P.crate_of[k]
-            ty = cr.types[b["locals"][root]["ty"]]
-            fname = None
-            cur = ty
-            WRAP = ("std::rc::Rc", "std::boxed::Box", "std::cell::RefCell", "std::cell::Ref", "std::cell::RefMut", "std::sync::Arc")
-            for e in proj:
-                # references and smart-pointer wrappers are transparent for "which field of which struct"
-                while cur["k"] in ("ref", "ptr") or (cur["k"] == "adt" and cur["path"] in WRAP and cur["args"]):
-                    cur = cr.types[cur["to"]] if cur["k"] in ("ref", "ptr") else cr.types[cur["args"][0]]
-                if e["k"] == "field":
-                    if cur["k"] == "adt" and cur["path"].replace("avra_lib::", "") == adt_path and e["i"] < len(names):
-                        fname = names[e["i"]]
-                        break
-                    cur = cr.types[e["ty"]]
-                elif e["k"] in ("via", "addrof", "deref", "downcast"):
-                    continue
-                else:
-                    break
-            if fname in fields:
+            for fname in sorted(fields_of(k, t["args"][0]) & set(fields)):
                 out.append((k, bb, t, fname, rp.rsplit("::", 1)[-1]))
     return out
 
